@@ -22,6 +22,7 @@ Tolerated(r) == (IF r.journal_skipped = 1 THEN {"has_journal", "orphan_file"} EL
                 \cup (IF r.model = 0 THEN {"resize_inode"} ELSE {})
 Accepted(r) ==
    /\ (r.model = 1 => GeoMatches(r.obs, Compute(CfgOf(r.cfg))))
+   /\ r.obs.backups_badcsum = <<>>                                   \* every superblock copy (primary and backups) carries a valid checksum
    /\ r.fsck = 0                                                     \* e2fsck -fn exits 0
    /\ r.consistent # 0                                               \* independent oracle: 1 = consistent, -1 = not evaluated
    /\ r.nwrites = 0                                                  \* mke2fs -n wrote nothing
